@@ -391,6 +391,72 @@ public:
 		return "\"r\":" + jnum(copied);
 	}
 
+	// ---------------------------------------------------------------- three-binding probe (C13)
+	// probe3 X [cells]: every accessor through the C++ method (when the object is reachable), the C function and the
+	// Fortran-glue function, on the same instance at the same moment. Index arguments for indexed accessors are
+	// -1, 0, 1, count-1, count (count taken through the C function). With "cells": up to 5x6 table cells plus
+	// out-of-range rows/columns through GetSelectedOutputValue (3 bindings) and GetSelectedOutputValue2 (2 bindings).
+	std::string probe3(Inst &I, const std::vector<std::string> &a) {
+		static const char *noarg[] = { "GetComponentCount", "GetCurrentSelectedOutputUserNumber", "GetDumpStringLineCount", "GetErrorStringLineCount",
+			"GetLogStringLineCount", "GetOutputStringLineCount", "GetSelectedOutputStringLineCount", "GetWarningStringLineCount",
+			"GetSelectedOutputColumnCount", "GetSelectedOutputCount", "GetSelectedOutputRowCount",
+			"GetDumpFileOn", "GetDumpStringOn", "GetErrorFileOn", "GetErrorOn", "GetErrorStringOn", "GetLogFileOn", "GetLogStringOn",
+			"GetOutputFileOn", "GetOutputStringOn", "GetSelectedOutputFileOn", "GetSelectedOutputStringOn",
+			"GetDumpFileName", "GetErrorFileName", "GetLogFileName", "GetOutputFileName", "GetSelectedOutputFileName",
+			"GetDumpString", "GetErrorString", "GetLogString", "GetOutputString", "GetSelectedOutputString", "GetWarningString", "GetVersionString", 0 };
+		static const char *indexed[][2] = { {"GetComponent", "GetComponentCount"}, {"GetDumpStringLine", "GetDumpStringLineCount"},
+			{"GetErrorStringLine", "GetErrorStringLineCount"}, {"GetLogStringLine", "GetLogStringLineCount"},
+			{"GetOutputStringLine", "GetOutputStringLineCount"}, {"GetSelectedOutputStringLine", "GetSelectedOutputStringLineCount"},
+			{"GetWarningStringLine", "GetWarningStringLineCount"}, {"GetNthSelectedOutputUserNumber", "GetSelectedOutputCount"}, {0, 0} };
+		const char *apis = I.obj ? "pcf" : "cf";
+		std::vector<std::string> none;
+		auto three = [&](const std::string &fn, const std::vector<std::string> &args) {
+			std::string r = "{";
+			for (const char *p = apis; *p; ++p) { if (p != apis) r += ","; r += std::string("\"") + *p + "\":{" + call(I, *p, fn, args) + "}"; }
+			return r + "}";
+		};
+		std::string r = "\"has_obj\":" + std::string(I.obj ? "1" : "0") + ",\"g\":{";
+		for (int i = 0; noarg[i]; i++) { if (i) r += ","; r += std::string("\"") + noarg[i] + "\":" + three(noarg[i], none); }
+		r += "},\"li\":{";
+		for (int i = 0; indexed[i][0]; i++) {
+			if (i) r += ",";
+			int cnt = 0;
+			{ std::string c = call(I, 'c', indexed[i][1], none); cnt = atoi(c.c_str() + 4); }
+			if (cnt < 0) cnt = 0;
+			int idx[5] = { -1, 0, 1, cnt - 1, cnt };
+			r += std::string("\"") + indexed[i][0] + "\":{\"count\":" + jnum(cnt);
+			for (int k = 0; k < 5; k++) {
+				bool dup = false; for (int j = 0; j < k; j++) if (idx[j] == idx[k]) dup = true;
+				if (dup) continue;
+				std::vector<std::string> one(1, std::to_string(idx[k]));
+				r += ",\"" + std::to_string(idx[k]) + "\":" + three(indexed[i][0], one);
+			}
+			r += "}";
+		}
+		r += "}";
+		if (!a.empty() && a[0] == "cells") {
+			int rows = atoi(call(I, 'c', "GetSelectedOutputRowCount", none).c_str() + 4), cols = atoi(call(I, 'c', "GetSelectedOutputColumnCount", none).c_str() + 4);
+			if (rows < 0) rows = 0; if (cols < 0) cols = 0;
+			std::vector<std::pair<int, int> > rc;
+			for (int rr = 0; rr < rows && rr < 5; rr++) for (int cc = 0; cc < cols && cc < 6; cc++) rc.push_back(std::make_pair(rr, cc));
+			if (rows > 5 && cols > 0) rc.push_back(std::make_pair(rows - 1, cols - 1));
+			rc.push_back(std::make_pair(rows, 0)); rc.push_back(std::make_pair(0, cols)); rc.push_back(std::make_pair(-1, 0)); rc.push_back(std::make_pair(0, -1));
+			r += ",\"rows\":" + jnum(rows) + ",\"cols\":" + jnum(cols) + ",\"cells\":[";
+			for (size_t k = 0; k < rc.size(); k++) {
+				std::vector<std::string> two; two.push_back(std::to_string(rc[k].first)); two.push_back(std::to_string(rc[k].second));
+				if (k) r += ",";
+				r += "{\"row\":" + jnum(rc[k].first) + ",\"col\":" + jnum(rc[k].second) + ",\"v\":" + three("GetSelectedOutputValue", two);
+				std::vector<std::string> v2 = two; v2.push_back(k % 2 ? "100" : "8");
+				r += ",\"cap\":" + v2[2] + ",\"v2\":{";
+				bool first = true;
+				for (const char *p = apis; *p; ++p) { if (*p == 'f') continue; if (!first) r += ","; first = false; r += std::string("\"") + *p + "\":{" + call(I, *p, "GetSelectedOutputValue2", v2) + "}"; }
+				r += "}}";
+			}
+			r += "]";
+		}
+		return r;
+	}
+
 	// ---------------------------------------------------------------- script execution
 	int exec(std::istream &in) {
 		std::string line;
@@ -460,6 +526,13 @@ public:
 			I.obj = 0; I.live = false;
 			return "\"r\":" + jnum(r);
 		}
+		if (op == "cdel" || op == "fdel") {   // destroy through the C / Fortran-glue registry function, however the instance was created
+			long r; int id = I.id;
+			if (op == "fdel") r = DestroyIPhreeqcF(&id); else r = ::DestroyIPhreeqc(I.id);
+			if (r == 0) { I.obj = 0; I.live = false; }
+			return "\"r\":" + jnum(r);
+		}
+		if (op == "probe3") return probe3(I, a);
 		if (op == "api") { I.api = a.at(0)[0]; return "\"r\":0"; }
 		if (op == "call") {   // call NAME binding Func args...
 			char api = a.at(0)[0]; std::string fn = a.at(1); std::vector<std::string> rest(a.begin() + 2, a.end());
